@@ -611,7 +611,7 @@ Definition teq_def (recurse : N -> N -> vstate -> result (bool * vstate))
   | TDVariant va, TDVariant vb =>
       if negb (Nat.eqb (List.length va) (List.length vb)) then Ok (false, st)
       else all2 (fun x y st =>
-                   if String.eqb (v_name x) (v_name y)
+                   if String.eqb (v_name x) (v_name y) && N.eqb (v_index x) (v_index y)
                    then fields_equal_with recurse ap' bp' (v_fields x) (v_fields y) st
                    else Ok (false, st)) va vb st
   | TDSequence x, TDSequence y => recurse x y st
@@ -729,7 +729,7 @@ Section TeqTotal.
         [apply Ia|apply Ib]; apply in_map; exact Hf.
     - destruct (negb (Nat.eqb (List.length va) (List.length vb))); [apply tspec_ret|].
       apply (all2_spec fuel (fun v => Forall field_in (v_fields v))).
-      + intros v w Hv Hw. destruct (String.eqb (v_name v) (v_name w)); [|apply tspec_ret].
+      + intros v w Hv Hw. destruct (String.eqb (v_name v) (v_name w) && N.eqb (v_index v) (v_index w)); [|apply tspec_ret].
         apply fields_equal_spec; assumption.
       + apply Forall_forall. intros v Hv. apply Forall_forall. intros f Hf. apply Ia.
         apply in_flat_map. exists v. split; [exact Hv|apply in_map; exact Hf].
